@@ -62,3 +62,29 @@ Definition explain (c : case) :=
   (failures c, model_prefix c,
    map (fun p => verdict_code (should_build (fun t => smem t (fst p)) (model_lines c))) (c_incl c),
    (bp_quiet c, bp_verbatim c, expr_nodneg c)).
+
+(* Regeneration histories: the steps of one history are runs over the same output path (all with
+   force-file-write: true), each observed right after its run.  Every step is also an ordinary
+   case; here the model's [regen] is evaluated over the whole history and compared with what was
+   observed after the last run of every prefix of the history. *)
+Definition settings_of (c : case) : settings :=
+  {| s_fmt := c_fmt c; s_tmpl := c_tmpl c; s_bp := c_bp c; s_tags := c_tags c; s_pkg := c_pkg c |}.
+
+Fixpoint hist_ok_from (done : list (bool * settings)) (steps : list case) : bool :=
+  match steps with
+  | [] => true
+  | c :: t =>
+    let h := done ++ [(true, settings_of c)] in
+    match regen (fun _ => []) None h with
+    | Some content => seqb content (c_obs c) && check_case c && hist_ok_from h t
+    | None => false
+    end
+  end.
+Definition hist_ok (steps : list case) : bool := hist_ok_from [] steps.
+
+Fixpoint hist_mismatches_from (i : nat) (hs : list (list case)) : list nat :=
+  match hs with
+  | [] => []
+  | h :: t => if hist_ok h then hist_mismatches_from (S i) t else i :: hist_mismatches_from (S i) t
+  end.
+Definition hist_mismatches := hist_mismatches_from 0.
